@@ -68,6 +68,8 @@ func jobsFor(prop, tier string) []Job {
 			add("anysys", c+".float", 1, map[string]string{"c": c, "elem": "float"}, nil)
 		}
 		add("anysys", "linkedhashset.deep", 1, map[string]string{"c": "linkedhashset"}, map[string]int{"n": pick(24, 48), "deep": 1})
+		// the default comparator of treeset.New must order the whole element type (float64 with NaN)
+		add("kv", "treeset.New.float64", 3, map[string]string{"c": "treeset", "ctor": "default", "elem": "float"}, nil)
 		for _, c := range []string{"nat", "rev", "coarse"} {
 			add("set", fmt.Sprintf("treeset.%s.u%d", c, u+1), u*u, map[string]string{"c": "treeset", "cmp": c}, map[string]int{"u": u + 1})
 			n := pick(10, 14)
@@ -543,6 +545,8 @@ func bidiJobs(prop string, q bool, add func(kind, id string, w int, s map[string
 		u = 4
 	}
 	add("kv", fmt.Sprintf("treebidimap.New.u%d", u), u, map[string]string{"c": "treebidimap", "ctor": "default"}, map[string]int{"u": u})
+	// HashBidiMap: every partial injection keys x values over the universe (zero value included)
+	add("kv", fmt.Sprintf("hashbidimap.u%d", u), u, map[string]string{"c": "hashbidimap"}, map[string]int{"u": u, "jsonops": 1})
 	// history families at a size where the underlying trees go through every deletion case
 	fu := 16
 	if !q {
